@@ -713,5 +713,12 @@ func loadContracts(repo string, specDir string) (*ContractSet, error) {
 			return nil, err
 		}
 	}
+	// An inlined function is executed as part of its caller: only its loop invariants are used. Clauses that
+	// would silently never be checked are rejected.
+	for k, c := range cs.Funcs {
+		if c.Inline && (len(c.LineHooks) > 0 || len(c.Asserts) > 0 || len(c.Sets) > 0 || len(c.Ensures) > 0 || len(c.Requires) > 0) {
+			return nil, fmt.Errorf("%s:%d: contract of %s is marked inline: its requires/ensures/at-hooks would never be checked (put them on the enclosing function)", c.File, c.Line, k)
+		}
+	}
 	return cs, nil
 }
